@@ -499,6 +499,20 @@ func c10(c *Ctx) {
 				r.Check("gate:"+g.name+":arg", paramIndex(uf, a[1]) == 1, g.call.Pos(), "tested against the metric's name")
 			}
 		}
+		// the filters are consulted for every metric: a return that accepts the metric (anything but `return
+		// false`) without having entered the loop over th.filters lies where th.filters is known to be empty
+		reach := reachableFrom(next)
+		eachInstr(uf, func(in ssa.Instruction) {
+			rt, ok := in.(*ssa.Return)
+			if !ok || len(rt.Results) != 1 || reach[rt.Block()] {
+				return
+			}
+			if k, isC := rt.Results[0].(*ssa.Const); isC && k.Value != nil && k.Value.ExactString() == "false" {
+				return
+			}
+			okNone := knownEmpty(factsAt(rt.Block()), func(v ssa.Value) bool { return strings.HasSuffix(pathOf(v), ".filters") })
+			r.Check("filters:bypassed-only-when-none-configured", okNone, rt.Pos(), "a metric is accepted without consulting the filters only where len(th.filters) == 0 is known: "+strings.Join(condStrings(rt.Block()), " && "))
+		})
 		// optional gates: match-metrics and match-tags are skipped when their list is empty
 		for _, g := range gates {
 			if g.name == "exclude-metrics" {
